@@ -12,6 +12,8 @@ CONSTANTS Family = "heco"
           MaxStored = 10
           MaxLen = 7
           EmitOn = TRUE
+          Sprint = 0
+          SpanEnd = 0
           TwoBranch = TRUE
           TraceLen = 0
 VIEW View
